@@ -444,13 +444,6 @@ has unique keys: the `Wf` hypothesis of the theorems is an invariant of the `*In
 theorem dict_keys_unique_invariant {α : Type} [Named α] (ops : List (DictOp α)) : WfDict (dictRun ops []) :=
   wf_dictRun ops [] wf_nil
 
-/-- `hasKey` reads the key list only -/
-theorem hasKey_of_names {α : Type} [Named α] (b b' : List α) (h : b.map name = b'.map name) (k : String) :
-    hasKey b k = hasKey b' k := by
-  have e : ∀ d : List α, hasKey d k = (d.map name).any (fun n => n == k) := by
-    intro d; simp [hasKey, List.any_map, Function.comp_def]
-  rw [e b, e b', h]
-
 /-- `_dict_diff` / `_dict_common` look at the KEYS of the other dictionary and at nothing else: putting any other slivers under the
 same keys on the other side (a fresh `node_id` after remove + add under the old name, other properties, other children) changes
 neither which children are removed, nor which are common, nor the names of the added ones -/
